@@ -568,17 +568,48 @@ impl JitCompiler {
 
         self.pc_locs = vec![0; prog.len() / ebpf::INSN_SIZE + 1];
 
+        // Stack usage of the function each instruction belongs to. Functions start at instruction 0
+        // and at every local call target; an instruction belongs to the function from whose entry
+        // it can be reached without following calls (wherever it is located in the program).
+        let insn_count = prog.len() / ebpf::INSN_SIZE;
+        let mut frame_sizes = vec![ebpf::LOCAL_FUNCTION_STACK_SIZE; insn_count];
+        if let Some(stack_usage) = stack_usage {
+            let mut owned = vec![false; insn_count];
+            for entry in 0..insn_count {
+                let size = match stack_usage.stack_usage_for_local_func(entry) {
+                    Some(usage) => usage.stack_usage(),
+                    None => continue,
+                };
+                let mut work = vec![entry];
+                while let Some(pc) = work.pop() {
+                    if pc >= insn_count || owned[pc] {
+                        continue;
+                    }
+                    owned[pc] = true;
+                    frame_sizes[pc] = size;
+                    let insn = ebpf::get_insn(prog, pc);
+                    let target = (pc as isize + 1 + insn.off as isize) as usize;
+                    let class = insn.opc & ebpf::BPF_CLS_MASK;
+                    match insn.opc {
+                        ebpf::EXIT => {}
+                        ebpf::LD_DW_IMM => work.push(pc + 2),
+                        ebpf::JA => work.push(target),
+                        ebpf::CALL | ebpf::TAIL_CALL => work.push(pc + 1),
+                        _ if class == ebpf::BPF_JMP || class == ebpf::BPF_JMP32 => {
+                            work.push(pc + 1);
+                            work.push(target);
+                        }
+                        _ => work.push(pc + 1),
+                    }
+                }
+            }
+        }
+
         let mut insn_ptr: usize = 0;
-        let mut frame_size = ebpf::LOCAL_FUNCTION_STACK_SIZE;
         while insn_ptr * ebpf::INSN_SIZE < prog.len() {
             let insn = ebpf::get_insn(prog, insn_ptr);
 
             self.pc_locs[insn_ptr] = mem.offset;
-
-            // Stack usage of the function the current instruction belongs to.
-            if let Some(usage) = stack_usage.and_then(|s| s.stack_usage_for_local_func(insn_ptr)) {
-                frame_size = usage.stack_usage();
-            }
 
             let dst = map_register(insn.dst);
             let src = map_register(insn.src);
@@ -981,7 +1012,7 @@ impl JitCompiler {
                         }
                         0x1 => {
                             let target_pc = insn_ptr as isize + insn.imm as isize + 1;
-                            self.emit_local_call(mem, target_pc, frame_size);
+                            self.emit_local_call(mem, target_pc, frame_sizes[insn_ptr]);
                         }
                         _ => {
                             Err(Error::other(
